@@ -137,20 +137,31 @@ pub fn mask_one(kind: StatusKind, on: bool) -> StatusMask {
 }
 
 // ---- symbolic time values -------------------------------------------------------------------------
-/// Seconds in [0, 2^20] (12 days), any nanosecond: far from the i32 saturation corner of the
-/// Time/Duration arithmetic (DDS "infinite" encoding), which is C14's subject.
-pub const SEC_MAX: i32 = 1 << 20;
+// Small value grid: seconds 0..=SEC_MAX, nanoseconds in {0, 1, 5*10^8, 10^9-1}. The code under test only
+// compares, adds and subtracts times; the grid contains every ordering, every equality and every nanosecond
+// carry/borrow case (1 + (10^9-1), 5*10^8 + 5*10^8, 0 - 1 ...). A full-range nanosecond makes the SAT problem
+// the 64-bit divide-by-10^9 equivalence that CBMC cannot decide (measured: c29_expired_at_write on a local
+// DataWriterEntity, > 600 s in the SAT solver; DESIGN.md P-j) — the arithmetic over the full domain is C14's
+// subject (MIR->SMT engine).
+pub const SEC_MAX: i32 = 7;
+fn any_nanosec() -> u32 {
+    let k: u8 = kani::any();
+    match k & 3 {
+        0 => 0,
+        1 => 1,
+        2 => 500_000_000,
+        _ => 999_999_999,
+    }
+}
 pub fn any_time() -> Time {
     let sec: i32 = kani::any();
-    let ns: u32 = kani::any();
-    kani::assume(sec >= 0 && sec <= SEC_MAX && ns < 1_000_000_000);
-    Time::new(sec, ns)
+    kani::assume(sec >= 0 && sec <= SEC_MAX);
+    Time::new(sec, any_nanosec())
 }
 pub fn any_duration() -> Duration {
     let sec: i32 = kani::any();
-    let ns: u32 = kani::any();
-    kani::assume(sec >= 0 && sec <= SEC_MAX && ns < 1_000_000_000);
-    Duration::new(sec, ns)
+    kani::assume(sec >= 0 && sec <= SEC_MAX);
+    Duration::new(sec, any_nanosec())
 }
 
 // ---- entity installation --------------------------------------------------------------------------
